@@ -264,6 +264,7 @@ class TunnelHTTPConnection(ConnectionInterface):
 
     def handle_request(self, request: Request) -> Response:
         timeouts = request.extensions.get("timeout", {})
+        sni_hostname = request.extensions.get("sni_hostname", None)
         timeout = timeouts.get("connect", None)
 
         with self._connect_lock:
@@ -279,11 +280,18 @@ class TunnelHTTPConnection(ConnectionInterface):
                 connect_headers = merge_headers(
                     [(b"Host", target), (b"Accept", b"*/*")], self._proxy_headers
                 )
+                # The 'sni_hostname' extension is for the TLS connection to the
+                # origin inside the tunnel, not for the one to the proxy itself.
+                connect_extensions = {
+                    key: value
+                    for key, value in request.extensions.items()
+                    if key != "sni_hostname"
+                }
                 connect_request = Request(
                     method=b"CONNECT",
                     url=connect_url,
                     headers=connect_headers,
-                    extensions=request.extensions,
+                    extensions=connect_extensions,
                 )
                 connect_response = self._connection.handle_request(
                     connect_request
@@ -310,7 +318,8 @@ class TunnelHTTPConnection(ConnectionInterface):
 
                     kwargs = {
                         "ssl_context": ssl_context,
-                        "server_hostname": self._remote_origin.host.decode("ascii"),
+                        "server_hostname": sni_hostname
+                        or self._remote_origin.host.decode("ascii"),
                         "timeout": timeout,
                     }
                     try:
